@@ -1,6 +1,7 @@
 import MoneroModel.Proofs.BlockSound
 import MoneroModel.Proofs.TxIdCommits
 import MoneroModel.Proofs.FixedRecords
+import MoneroModel.Proofs.BlockIdCommits
 import MoneroModel.Gen.Codec
 open Monero
 /-! # C01 — parsed consensus data re-serialises to exactly the bytes that were parsed
@@ -102,7 +103,10 @@ theorem C01_ids_commit {α β} (enc : α → Bytes) (dec : Dec α) (hs : Sound e
 
 /-! ## Added after the audit -/
 
-/-- `RctType` as a stand-alone `Decodable` / `Encodable` (ringct.rs:659-689; `RctSigBase` inlines the same byte) -/
+/-- `RctType` as a stand-alone `Decodable` / `Encodable` (ringct.rs:659-689; `RctSigBase` inlines the same byte), in the model's
+representation: a type IS its number, so this is `C01_sound_u8` plus the range check and holds whatever the two match tables of the
+source say. The tables themselves are the subject of `C01_sound_rcttype_tables` (Sound of the codec read off the two regenerated
+tables) and `C01_rcttype_model_is_table` (this model codec = that table codec, numbered by the encode table). -/
 theorem C01_sound_rcttype : Sound encRctType rctType := by
   intro b x r h
   unfold rctType at h
@@ -114,7 +118,8 @@ theorem C01_sound_rcttype : Sound encRctType rctType := by
     simpa [encRctType] using hb
 
 /-- signed fixed-width integers (`i8 … i64`): the two's-complement residue of the decoded value, little endian, is the
-consumed bytes -/
+consumed bytes (that the decoded VALUE is the two's-complement reading is compared with the library by the harness, which prints the
+value of every primitive; the property itself only needs the bytes) -/
 theorem C01_sound_int (k : Nat) (b : Bytes) (v : Int) (r : Bytes) (h : intLE k b = some (v, r)) :
     b = encIntLE k v ++ r := by
   unfold intLE at h
@@ -139,6 +144,8 @@ theorem C01_sound_bool_canonical (t : UInt8) (r : Bytes) (ht : t = 0 ∨ t = 1) 
     (h : boolDec (t :: r) = some (x, r')) : t :: r = encBool x ++ r' := by
   rcases ht with rfl | rfl <;> (simp [boolDec, Monero.bind, u8, pure'] at h; obtain ⟨rfl, rfl⟩ := h; rfl)
 example : boolDec [1, 7] = some (true, [7]) := by rfl
+example : boolDec [0] = some (false, []) := by rfl
+example : (0 : UInt8) :: [7] = encBool false ++ [7] := by rfl
 
 /-- instances of "no two different byte strings parse to the same value" for the concrete record types -/
 theorem C01_injective_tx (b1 b2 : Bytes) (t : Tx) (h1 : strict tx b1 = some t) (h2 : strict tx b2 = some t) : b1 = b2 :=
@@ -158,29 +165,145 @@ example : strict tx [2, 0, 1, 0xff, 5, 0, 0, 0] = some ⟨⟨2, 0, [.gen 5], [],
 /-- **The transaction identifier commits to the received bytes** (the clause that `C01_ids_commit` only states for
 identifiers of the form `H ∘ serialize`): for the model of `Transaction::hash` (`txHash`, Model/TxHash.lean — version 1:
 `H(serialisation)`; otherwise `H(H(prefix) ‖ H(base) ‖ (Null ? 0³² : H(prunable)))`) with an arbitrary 32-byte-valued `H`, two
-strictly parsed transactions of the same version class with equal identifiers were parsed from the SAME bytes, or the
-equality exhibits a collision of `H`. (Without `hv` the claim is false: a 96-byte RingCT pre-image can itself be a valid version-1
-serialisation, so version-1 and RingCT identifiers are not domain-separated.) -/
+strictly parsed transactions of the same version class with equal identifiers were parsed from the SAME bytes, or two DIFFERENT
+strings — `u` among the strings hashed while computing the first identifier, `v` among those hashed for the second
+(`hashed H t`, Proofs/TxIdCommits: at most four explicit strings, given as a function of the parsed transaction) — have the same
+hash. (A conclusion "`H` has some collision" would be empty: every function into 32-byte strings has one. And without `hv`
+the claim is false: a 96-byte RingCT pre-image can itself be a valid version-1 serialisation — `C01_txid_commits_any_version`.) -/
 theorem C01_txid_commits (H : Bytes → Bytes) (hlen : ∀ x, (H x).length = 32) (b1 b2 : Bytes) (t1 t2 : Tx)
     (h1 : tx b1 = some (t1, [])) (h2 : tx b2 = some (t2, []))
     (hv : t1.pre.version = 1 ↔ t2.pre.version = 1) (hid : txHash H t1 = txHash H t2) :
-    b1 = b2 ∨ ∃ u v, u ≠ v ∧ H u = H v := txid_commits H hlen b1 b2 t1 t2 h1 h2 hv hid
-/- the hypotheses are jointly satisfiable (constant `H`, a Null-type coinbase transaction) -/
-example : ∃ (H : Bytes → Bytes) (b : Bytes) (t : Tx), (∀ x, (H x).length = 32) ∧ tx b = some (t, []) :=
-  ⟨fun _ => List.replicate 32 0, [2, 0, 1, 0xff, 5, 0, 0, 0], ⟨⟨2, 0, [.gen 5], [], []⟩, [], some ⟨0, 0, [], [], []⟩, none⟩, fun _ => by simp, by rfl⟩
+    b1 = b2 ∨ ∃ u ∈ hashed H t1, ∃ v ∈ hashed H t2, u ≠ v ∧ H u = H v := txid_commits H hlen b1 b2 t1 t2 h1 h2 hv hid
+/-- the same as an injectivity statement: if `H` is injective on the strings hashed for the two identifiers, equal identifiers
+mean equal received bytes -/
+theorem C01_txid_injective (H : Bytes → Bytes) (hlen : ∀ x, (H x).length = 32) (b1 b2 : Bytes) (t1 t2 : Tx)
+    (h1 : tx b1 = some (t1, [])) (h2 : tx b2 = some (t2, []))
+    (hv : t1.pre.version = 1 ↔ t2.pre.version = 1)
+    (hinj : ∀ u ∈ hashed H t1, ∀ v ∈ hashed H t2, H u = H v → u = v) (hid : txHash H t1 = txHash H t2) : b1 = b2 := by
+  rcases txid_commits H hlen b1 b2 t1 t2 h1 h2 hv hid with h | ⟨u, hu, v, hv', hne, he⟩
+  · exact h
+  · exact absurd (hinj u hu v hv' he) hne
+/-- `hashed H t` is tied to `txHash`: the identifier is the hash of its LAST string, and (version ≠ 1, prunable part present exactly
+for the non-Null types — every parsed transaction) that string is the concatenation of the hashes of the strings before it,
+followed by 0³² for the Null type -/
+theorem C01_txid_is_hash_of_last (H : Bytes → Bytes) (t : Tx) : ∃ u, (hashed H t).getLast? = some u ∧ txHash H t = H u :=
+  txHash_eq_hash_last H t
+theorem C01_txid_last_is_digests (H : Bytes → Bytes) (t : Tx) (hv : t.pre.version ≠ 1)
+    (hp : ∀ b, t.base = some b → b.ty ≠ 0 → t.prun ≠ none) :
+    ∃ u, (hashed H t).getLast? = some u ∧
+      u = (((hashed H t).dropLast).map H).flatten ++
+        (match t.base with | some b => if b.ty = 0 then zeroHash else [] | none => []) := hashed_last_is_digests H t hv hp
+example : ∃ t : Tx, t.pre.version ≠ 1 ∧ (∀ b, t.base = some b → b.ty ≠ 0 → t.prun ≠ none) ∧ (t.base.map (·.ty)) = some 4 :=
+  ⟨⟨⟨2, 0, [.gen 5], [], []⟩, [], some ⟨4, 0, [], [], []⟩, some ⟨[], [], [], [], [], []⟩⟩, by decide, fun _ _ _ => by simp, rfl⟩
+/-- without the hypothesis on the versions exactly one more case exists: the serialisation of the version-1 transaction IS the
+32- / 96-byte string of digests hashed last for the other transaction -/
+theorem C01_txid_commits_any_version (H : Bytes → Bytes) (hlen : ∀ x, (H x).length = 32) (b1 b2 : Bytes) (t1 t2 : Tx)
+    (h1 : tx b1 = some (t1, [])) (h2 : tx b2 = some (t2, [])) (hid : txHash H t1 = txHash H t2) :
+    b1 = b2 ∨ (∃ u ∈ hashed H t1, ∃ v ∈ hashed H t2, u ≠ v ∧ H u = H v) ∨
+      (t1.pre.version = 1 ∧ t2.pre.version ≠ 1 ∧ (hashed H t2).getLast? = some b1) ∨
+      (t2.pre.version = 1 ∧ t1.pre.version ≠ 1 ∧ (hashed H t1).getLast? = some b2) :=
+  txid_commits_any_version H hlen b1 b2 t1 t2 h1 h2 hid
+/- (1) all five hypotheses of `C01_txid_commits` are jointly satisfiable (constant `H`, one Null-type coinbase transaction twice) -/
+example : ∃ (H : Bytes → Bytes) (b1 b2 : Bytes) (t1 t2 : Tx), (∀ x, (H x).length = 32) ∧ tx b1 = some (t1, []) ∧
+    tx b2 = some (t2, []) ∧ (t1.pre.version = 1 ↔ t2.pre.version = 1) ∧ txHash H t1 = txHash H t2 :=
+  ⟨fun _ => List.replicate 32 0, [2, 0, 1, 0xff, 5, 0, 0, 0], [2, 0, 1, 0xff, 5, 0, 0, 0],
+   ⟨⟨2, 0, [.gen 5], [], []⟩, [], some ⟨0, 0, [], [], []⟩, none⟩, ⟨⟨2, 0, [.gen 5], [], []⟩, [], some ⟨0, 0, [], [], []⟩, none⟩,
+   fun _ => by simp, by rfl, by rfl, Iff.rfl, rfl⟩
+/- (2) the conclusion is not a consequence of `hlen` alone: for `toyH` (32-byte valued) and two DIFFERENT accepted byte strings the
+second disjunct is false, i.e. `hinj` of `C01_txid_injective` holds with `b1 ≠ b2` — so the theorem forces different identifiers -/
+example : ∃ (b1 b2 : Bytes) (t1 t2 : Tx), (∀ x, (toyH x).length = 32) ∧ tx b1 = some (t1, []) ∧ tx b2 = some (t2, []) ∧
+    (t1.pre.version = 1 ↔ t2.pre.version = 1) ∧ b1 ≠ b2 ∧
+    (∀ u ∈ hashed toyH t1, ∀ v ∈ hashed toyH t2, toyH u = toyH v → u = v) ∧ txHash toyH t1 ≠ txHash toyH t2 := by
+  refine ⟨[2, 0, 1, 0xff, 5, 0, 0, 0], [2, 0, 1, 0xff, 6, 0, 0, 0],
+    ⟨⟨2, 0, [.gen 5], [], []⟩, [], some ⟨0, 0, [], [], []⟩, none⟩, ⟨⟨2, 0, [.gen 6], [], []⟩, [], some ⟨0, 0, [], [], []⟩, none⟩,
+    toyH_length, by rfl, by rfl, by decide, by decide, by decide +kernel, by decide +kernel⟩
+/-- a 32-byte-valued function that sends every 5-byte string to a string that is itself a version-1 serialisation -/
+def toyH1 (x : Bytes) : Bytes := if x.length = 5 then [1, 0, 0, 0, 27] ++ List.replicate 27 0 else toyH x
+/- (3) without `hv` the claim IS false (so `hv` is not decoration), and the extra case of `C01_txid_commits_any_version` is inhabited: a
+version-1 transaction whose 32-byte serialisation is the digest string hashed last for a version-5 transaction — two different accepted
+byte strings, equal identifiers, no collision between the hashed strings -/
+example : ∃ (H : Bytes → Bytes) (b1 b2 : Bytes) (t1 t2 : Tx), (∀ x, (H x).length = 32) ∧ tx b1 = some (t1, []) ∧ tx b2 = some (t2, []) ∧
+    b1 ≠ b2 ∧ txHash H t1 = txHash H t2 ∧ (∀ u ∈ hashed H t1, ∀ v ∈ hashed H t2, H u = H v → u = v) ∧
+    t1.pre.version = 1 ∧ t2.pre.version ≠ 1 ∧ (hashed H t2).getLast? = some b1 := by
+  refine ⟨toyH1, [1, 0, 0, 0, 27] ++ List.replicate 27 0, [5, 0, 0, 0, 0],
+    ⟨⟨1, 0, [], [], List.replicate 27 0⟩, [], none, none⟩, ⟨⟨5, 0, [], [], []⟩, [], none, none⟩, ?_, by rfl, by rfl,
+    by decide, by decide +kernel, by decide +kernel, rfl, by decide, by decide +kernel⟩
+  intro x; unfold toyH1; split
+  · simp
+  · exact toyH_length x
+
+/-! ### The block identifier (`Block::id`, block.rs:93-141; model `TreeHash.blockId`, proofs in Proofs/BlockIdCommits)
+
+`Block::id` is not of the form `f ∘ serialize`: it is `H(varint |blob| ‖ blob)`, `blob = header bytes ‖ tree hash of (miner tx id, listed
+hashes) ‖ varint (n + 1)`, with the block-202612 substitution (raw hash `correct` ↦ `existing`; the two constants are parameters).
+`hashedBlock H x` is the explicit list of strings to which `H` is applied on the way: those of the miner transaction's identifier,
+the 64-byte node pairs of the tree (`treeNodes`, the trace of the reference tree hash, which the model of `tree_hash` equals), and
+last `blockPre H x = varint |blob| ‖ blob`. -/
+open TreeHash in
+/-- **The block identifier commits to the received bytes**: two strictly parsed blocks (miner transactions of the same version
+class) with equal identifiers were parsed from the SAME bytes, or two DIFFERENT strings — one hashed for the first identifier, one
+for the second — have the same hash, or the block-202612 substitution is involved (the raw hash of one block is `correct`, that of
+the other `existing`: `Block::id` maps these two raw hashes to one identifier by design — BlockIdCommits.lean has a witness
+that this disjunct cannot be dropped). -/
+theorem C01_blockid_commits (H : Bytes → Bytes) (hlen : ∀ x, (H x).length = 32) (correct existing : Bytes)
+    (b1 b2 : Bytes) (x1 x2 : Block) (p1 : block b1 = some (x1, [])) (p2 : block b2 = some (x2, []))
+    (hv : x1.miner.pre.version = 1 ↔ x2.miner.pre.version = 1)
+    (hid : blockId H correct existing (encHeader x1.hdr) (txHash H x1.miner) x1.hashes =
+           blockId H correct existing (encHeader x2.hdr) (txHash H x2.miner) x2.hashes) :
+    b1 = b2 ∨ (∃ u ∈ hashedBlock H x1, ∃ v ∈ hashedBlock H x2, u ≠ v ∧ H u = H v) ∨
+    (correct ≠ existing ∧
+      ((H (blockPre H x1) = correct ∧ H (blockPre H x2) = existing) ∨
+       (H (blockPre H x2) = correct ∧ H (blockPre H x1) = existing))) :=
+  blockid_commits H hlen correct existing b1 b2 x1 x2 p1 p2 hv hid
+open TreeHash in
+/-- `hashedBlock` is tied to `blockId`: the identifier of a parsed block is the hash of the LAST string of the list, up to the substitution -/
+theorem C01_blockid_is_hash_of_last (H : Bytes → Bytes) (correct existing : Bytes) (b : Bytes) (x : Block) (r : Bytes)
+    (h : block b = some (x, r)) :
+    (hashedBlock H x).getLast? = some (blockPre H x) ∧
+    blockId H correct existing (encHeader x.hdr) (txHash H x.miner) x.hashes =
+      some (if H (blockPre H x) = correct then existing else H (blockPre H x)) := parsed_blockId H correct existing b x r h
+open TreeHash in
+/-- Merkle injectivity of `tree_hash` (= `Block::tx_root`) for the same number of 32-byte leaves, relative to collisions between the
+node pairs hashed in the two trees -/
+theorem C01_tree_hash_injective (H : Bytes → Bytes) (hlen : ∀ x, (H x).length = 32) (root1 root2 : Bytes) (extra1 extra2 : List Bytes)
+    (hl : extra1.length = extra2.length) (hmax : extra1.length + 1 ≤ 2^28)
+    (w1 : ∀ h ∈ root1 :: extra1, h.length = 32) (w2 : ∀ h ∈ root2 :: extra2, h.length = 32)
+    (h : treeHash H root1 extra1 = treeHash H root2 extra2) :
+    (root1 = root2 ∧ extra1 = extra2) ∨
+      ∃ u ∈ treeNodes H (root1 :: extra1), ∃ v ∈ treeNodes H (root2 :: extra2), u ≠ v ∧ H u = H v :=
+  treeHash_inj H hlen root1 root2 extra1 extra2 hl hmax w1 w2 h
+open TreeHash Spec.TreeHash in
+/- non-vacuity (the joint satisfiability of the hypotheses and the necessity of the substitution disjunct are `example`s of
+Proofs/BlockIdCommits.lean): for `toyH`, the real 202612 constants and two different accepted blocks (three tree leaves each) the
+collision and substitution disjuncts are false — the theorem forces different identifiers -/
+example : ∃ (b1 b2 : Bytes) (x1 x2 : Block), (∀ x, (toyH x).length = 32) ∧ block b1 = some (x1, []) ∧ block b2 = some (x2, []) ∧
+    (x1.miner.pre.version = 1 ↔ x2.miner.pre.version = 1) ∧ b1 ≠ b2 ∧
+    (∀ u ∈ hashedBlock toyH x1, ∀ v ∈ hashedBlock toyH x2, toyH u = toyH v → u = v) ∧
+    toyH (blockPre toyH x1) ≠ computedId202612 ∧ toyH (blockPre toyH x2) ≠ computedId202612 ∧
+    blockId toyH computedId202612 historicalId202612 (encHeader x1.hdr) (txHash toyH x1.miner) x1.hashes ≠
+      blockId toyH computedId202612 historicalId202612 (encHeader x2.hdr) (txHash toyH x2.miner) x2.hashes :=
+  ⟨exBytes 1 exHashes, exBytes 2 exHashes, exBlock 1 exHashes, exBlock 2 exHashes, toyH_length, by rfl, by rfl, by decide, by decide,
+    by decide +kernel, by decide +kernel, by decide +kernel, by decide +kernel⟩
 
 /-- **Fixed-width records, field by field.** The flat `takeN` models (`C01_sound_fixed`) say nothing about the separately written
 Rust element loops; these do: reading n fixed-width elements one after another (`[T; N]` of `impl_array!`, the `Key64` loop) consumes
 exactly the bytes of one flat read and the parts concatenate to the flat value; `Signature { c, r }` read as two keys and
 `RangeSig { asig: BoroSig { s0, s1, ee }, Ci }` read as 64 + 64 + 1 + 64 keys (Proofs/FixedRecords: `key64S`, `signatureS`,
-`rangeSigS`, with their own encoders) agree with the flat 64 / 6176-byte models used by the driver, and are sound by themselves. -/
+`boroSigS`, `rangeSigS`, with their own encoders) agree with the flat 64 / 6176-byte models used by the driver, and are sound by themselves. -/
 theorem C01_fixed_elementwise (w : Nat) (n : Nat) (b : Bytes) :
     (rep (takeN w) n b).map (fun p => (p.1.flatten, p.2)) = takeN (w * n) b := rep_takeN_flat w n b
 theorem C01_key64_elementwise (b : Bytes) : (key64S b).map (fun p => (p.1.flatten, p.2)) = key64 b := key64S_flat b
 theorem C01_signature_fieldwise (b : Bytes) : (signatureS b).map (fun p => (p.1.1 ++ p.1.2, p.2)) = signature b := signatureS_flat b
 theorem C01_rangesig_fieldwise (b : Bytes) : (rangeSigS b).map (fun p => (encRangeSigS p.1, p.2)) = rangeSig b := rangeSigS_flat b
 theorem C01_sound_key64 : Sound (encSized id) key64S := sound_key64S
+theorem C01_sound_borosig : Sound encBoroS boroSigS := sound_boroSigS
 theorem C01_sound_rangesig : Sound encRangeSigS rangeSigS := sound_rangeSigS
+/-- `Bulletproof` (6 keys, L, R, 3 keys) and `BulletproofPlus` (6 keys, L, R) read key by key give the values of the flat models
+`bp` / `bpp` (whose soundness is `C01_sound_bulletproof(plus)`), with the same rest -/
+theorem C01_bulletproof_fieldwise (b : Bytes) :
+    (bpS b).map (fun p => ((⟨p.1.1.flatten, p.1.2.1, p.1.2.2.1, p.1.2.2.2.flatten⟩ : BP), p.2)) = bp b := bpS_flat b
+theorem C01_bulletproofplus_fieldwise (b : Bytes) :
+    (bppS b).map (fun p => ((⟨p.1.1.flatten, p.1.2.1, p.1.2.2⟩ : BPP), p.2)) = bpp b := bppS_flat b
 
 /-- which variant a model value is, in the vocabulary of the regenerated tables -/
 def txInV : TxIn → TxInV | .gen _ => .Gen | .toKey .. => .ToKey
@@ -189,11 +312,10 @@ def targetV : Target → TargetV | .key _ => .ToKey | .tagged .. => .ToTaggedKey
 /-- **The tag literals of the model are the tag tables of the CURRENT SOURCE** (`Gen.*`, regenerated on every run): whatever the
 model decoders accept starts with a tag of the table and yields the variant the table gives for it; every tag of the table is
 accepted (given enough bytes) as that variant; the model encoders write the table's tag for the variant; the RingCT type byte
-accepted by `base` / `rctType` is a key of `Gen.rctTypeDecode`, every key is accepted, and the encoder writes the type's own
-number; and the type sets on which the model branches (`ty ≤ 3` for the 64-byte ecdh form, `ty = 4 ∨ ty = 5` varint proof count,
-`ty = 5 ∨ ty = 6` CLSAG, `ty ≥ 3` pseudo outs in the prunable part, `ty = 2` pseudo outs in the base, `ty = 0` nothing) are the
-variant sets of the `match rct_type` arms of the source. A one-sided tag edit in the source changes a table and breaks this
-theorem even where `C01_sound_*` (which speak about the model alone) stay true. -/
+accepted by `base` / `rctType` is a key of `Gen.rctTypeDecode`, every key is accepted, and `encBase` / `encRctType` write, for the
+number under which the DECODE table lists a variant, the byte that the ENCODE table gives for that variant. A one-sided tag edit
+in the source changes a table and breaks this theorem even where `C01_sound_*` (which speak about the model alone) stay true.
+(The type sets on which the model BRANCHES are the subject of `C01_model_branches_are_source`.) -/
 theorem C01_model_tags_are_source :
     (∀ t r x r', txin (t :: r) = some (x, r') → (t.toNat, txInV x) ∈ Gen.txInDecode) ∧
     (∀ p ∈ Gen.txInDecode, (txin (UInt8.ofNat p.1 :: List.replicate 64 0)).map (fun y => txInV y.1) = some p.2) ∧
@@ -204,15 +326,9 @@ theorem C01_model_tags_are_source :
     (∀ i o t r x r', base i o (t :: r) = some (x, r') → t.toNat ∈ Gen.rctTypeDecode.map (·.1) ∧ x.ty = t.toNat) ∧
     (∀ t r x r', rctType (t :: r) = some (x, r') → t.toNat ∈ Gen.rctTypeDecode.map (·.1) ∧ x = t.toNat) ∧
     (∀ p ∈ Gen.rctTypeDecode, (base 0 0 (UInt8.ofNat p.1 :: List.replicate 8 0)).isSome ∧ (rctType [UInt8.ofNat p.1]).isSome) ∧
-    (∀ p ∈ Gen.rctTypeEncode, encRctType p.2 = [UInt8.ofNat p.2] ∧ (p.2, p.1) ∈ Gen.rctTypeDecode) ∧
-    (∀ p ∈ Gen.rctTypeDecode,
-      (decide (p.1 ≤ 3) = decide (p.2 ∈ Gen.ecdhDecMatches[0]![0]!)) ∧ (decide (p.1 ≤ 3) = !decide (p.2 ∈ Gen.ecdhDecMatches[0]![1]!)) ∧
-      (decide (p.1 = 0) = decide (p.2 ∈ Gen.baseDecMatches[0]![0]!)) ∧ (decide (p.1 = 0) = decide (p.2 ∈ Gen.prunDecMatches[0]![0]!)) ∧
-      (decide (p.1 = 2) = decide (p.2 ∈ Gen.baseDecEqs)) ∧
-      (decide (p.1 = 4 ∨ p.1 = 5) = decide (p.2 ∈ Gen.prunDecMatches[1]![0]!)) ∧
-      (decide (p.1 = 5 ∨ p.1 = 6) = decide (p.2 ∈ Gen.prunDecMatches[2]![0]!)) ∧
-      (decide (p.1 ≥ 3) = decide (p.2 ∈ Gen.prunDecMatches[3]![0]!))) := by
-  refine ⟨?_, by decide, ?_, ?_, by decide, ?_, ?_, ?_, by decide, by decide, by decide⟩
+    (∀ p ∈ Gen.rctTypeDecode, ∀ q ∈ Gen.rctTypeEncode, p.2 = q.1 →
+      (encBase ⟨p.1, 0, [], [], []⟩).head? = some (UInt8.ofNat q.2) ∧ encRctType p.1 = [UInt8.ofNat q.2]) := by
+  refine ⟨?_, by decide, ?_, ?_, by decide, ?_, ?_, ?_, by decide, by decide⟩
   · intro t r x r' h
     unfold txin at h
     simp only [Monero.bind, u8] at h
@@ -273,6 +389,123 @@ theorem C01_model_tags_are_source :
       obtain ⟨rfl, _⟩ := pure_some h
       have : ∀ n, n ≤ 6 → n ∈ Gen.rctTypeDecode.map (·.1) := by decide
       exact ⟨this _ (by omega), rfl⟩
+
+/-! ### The type sets on which the model branches are the variant sets of the source
+
+Each clause RUNS a model function (`ecdh`, `base`, `prunable`, `proofsDec`, `sigsDec`, `pseudoDec`; `encBase`, `encProofs`, `encSigs`,
+`encPseudo`, `encPrunable`) on a probe for each of the seven types `p = (number, variant) ∈ Gen.rctTypeDecode` and compares what the
+function DID (which form it read / wrote, how many bytes) with what the regenerated table of the corresponding `match rct_type` /
+`==` / `is_rct_bp()` / `is_rct_bp_plus()` expression of the source says about the variant. Changing a branch condition of the model
+(e.g. `ty ≤ 3` to `ty ≤ 4` in `ecdh`) or of the source (one arm of one `match`) breaks the clause. -/
+
+/-- probes -/
+def k32 : Bytes := List.replicate 32 0
+def bp0 : BP := ⟨List.replicate 192 0, [], [], List.replicate 96 0⟩
+def bpp0 : BPP := ⟨List.replicate 192 0, [], []⟩
+def zeros (n : Nat) : Bytes := List.replicate n 0
+/-- bytes consumed by a decoder -/
+def used {α} (b : Bytes) (r : Option (α × Bytes)) : Option Nat := r.map fun y => b.length - y.2.length
+
+theorem C01_model_branches_are_source :
+    -- DECODERS
+    -- `EcdhInfo::consensus_decode`: two keys (64 bytes) for the first arm, 8 bytes for the second
+    (∀ p ∈ Gen.rctTypeDecode,
+      (ecdh p.1 (zeros 64)).map (fun y => (match y.1 with | .std .. => true | .bp .. => false, y.2.length))
+        = some (if p.2 ∈ Gen.ecdhDecMatches[0]![0]! then (true, 0) else (false, 56))) ∧
+    (∀ p ∈ Gen.rctTypeDecode, (p.2 ∈ Gen.ecdhDecMatches[0]![0]! ↔ p.2 ∉ Gen.ecdhDecMatches[0]![1]!)) ∧
+    -- `RctSigBase::consensus_decode` (1 input, 0 outputs): only the type byte for the Null arm; otherwise the fee and, for the
+    -- variants compared with `==` (Simple), one pseudo out per input
+    (∀ p ∈ Gen.rctTypeDecode,
+      (base 1 0 (UInt8.ofNat p.1 :: zeros 40)).map (fun y => (y.1.pseudo.length, 41 - y.2.length))
+        = some (if p.2 ∈ Gen.baseDecMatches[0]![0]! then (0, 1) else if p.2 ∈ Gen.baseDecEqs then (1, 34) else (0, 2))) ∧
+    -- `RctSigPrunable::consensus_decode` (1 input): `None`, nothing read, exactly for the Null arm
+    (∀ p ∈ Gen.rctTypeDecode,
+      (prunable p.1 1 0 0 (zeros 200)).map (fun y => (y.1.isNone, y.2.length == 200))
+        = some (if p.2 ∈ Gen.prunDecMatches[0]![0]! then (true, true) else (false, false))) ∧
+    -- range proofs (count 1 in every width): `is_rct_bp()` → Bulletproofs, varint count for the arm `Bulletproof2 | Clsag`, u32
+    -- count otherwise; `is_rct_bp_plus()` → BulletproofPlus, one-byte count; else one range signature per output (0 outputs)
+    (∀ p ∈ Gen.rctTypeDecode,
+      (proofsDec p.1 0 (1 :: zeros 400)).map (fun y => (y.1.1.length, y.1.2.1.length, y.1.2.2.length, 401 - y.2.length))
+        = some (if p.2 ∈ Gen.isRctBp then (if p.2 ∈ Gen.prunDecMatches[1]![0]! then (0, 1, 0, 291) else (0, 1, 0, 294))
+                else if p.2 ∈ Gen.isRctBpPlus then (0, 0, 1, 195) else (0, 0, 0, 0))) ∧
+    -- ring signatures (2 inputs, mixin 0): CLSAGs for the arm `Clsag | BulletproofPlus`; else MLSAGs — one per input with 2 columns
+    -- for the variants compared with `==` (`is_simple_or_bp`), one with inputs + 1 columns otherwise
+    (∀ p ∈ Gen.rctTypeDecode,
+      (sigsDec p.1 2 0 (zeros 200)).map (fun y => (y.1.1.length, y.1.2.length, (y.1.1.map (fun m => m.ss.map (·.length))), 200 - y.2.length))
+        = some (if p.2 ∈ Gen.prunDecMatches[2]![0]! then (0, 2, [], 192)
+                else if p.2 ∈ Gen.prunDecEqs then (2, 0, [[2], [2]], 192) else (1, 0, [[3]], 128))) ∧
+    -- pseudo outs in the prunable part: one per input for the arm `Bulletproof | Bulletproof2 | Clsag | BulletproofPlus`
+    (∀ p ∈ Gen.rctTypeDecode,
+      (pseudoDec p.1 1 (zeros 32)).map (fun y => (y.1.length, y.2.length))
+        = some (if p.2 ∈ Gen.prunDecMatches[3]![0]! then (1, 0) else (0, 32))) ∧
+    -- ENCODERS (the tables of the `consensus_encode` functions; `is_rct_bp` / `is_rct_bp_plus` are shared)
+    (∀ p ∈ Gen.rctTypeDecode,
+      (encBase ⟨p.1, 0, [k32], [], []⟩).length
+        = (if p.2 ∈ Gen.baseEncMatches[0]![0]! then 1 else if p.2 ∈ Gen.baseEncEqs then 34 else 2)) ∧
+    (∀ p ∈ Gen.rctTypeDecode,
+      (encPrunable ⟨[], [], [], [⟨[[k32]], k32⟩], [⟨[k32], k32, k32⟩], [k32]⟩ p.1).isEmpty = decide (p.2 ∈ Gen.prunEncMatches[0]![0]!)) ∧
+    (∀ p ∈ Gen.rctTypeDecode,
+      (encProofs [zeros 5] [bp0] [bpp0] p.1).length
+        = (if p.2 ∈ Gen.isRctBp then (if p.2 ∈ Gen.prunEncMatches[1]![0]! then 291 else 294)
+           else if p.2 ∈ Gen.isRctBpPlus then 195 else 5)) ∧
+    (∀ p ∈ Gen.rctTypeDecode,
+      (encSigs [⟨[[k32]], k32⟩] [⟨[k32], k32, k32⟩] p.1).length = (if p.2 ∈ Gen.prunEncMatches[2]![0]! then 96 else 64)) ∧
+    (∀ p ∈ Gen.rctTypeDecode,
+      (encPseudo [k32] p.1).length = (if p.2 ∈ Gen.prunEncMatches[3]![0]! then 32 else 0)) ∧
+    -- the tables have the shape the clauses above index into; the prunable encoder has no `==` comparison of its own
+    Gen.ecdhDecMatches.length = 1 ∧ Gen.baseDecMatches.length = 1 ∧ Gen.prunDecMatches.length = 4 ∧ Gen.baseDecEqs.length = 1 ∧
+    Gen.prunDecEqs.length = 3 ∧ Gen.ecdhDecEqs = [] ∧ Gen.prunEncEqs = [] ∧
+    Gen.baseEncMatches.length = 1 ∧ Gen.prunEncMatches.length = 4 ∧ Gen.baseEncEqs.length = 1 := by
+  refine ⟨by decide +kernel, by decide +kernel, by decide +kernel, by decide +kernel, by decide +kernel, by decide +kernel,
+    by decide +kernel, by decide +kernel, by decide +kernel, by decide +kernel, by decide +kernel, by decide +kernel,
+    by decide, by decide, by decide, by decide, by decide, by decide, by decide, by decide, by decide, by decide⟩
+
+/-! ### `RctType` read off the tables -/
+
+/-- `RctType::consensus_decode` as the regenerated decode table: one byte, looked up (every other byte is an error) -/
+def rctTypeT : Dec RctTy := bind u8 fun t => match Gen.rctTypeDecode.lookup t.toNat with | some v => pure' v | none => fail
+/-- `RctType::consensus_encode` as the regenerated encode table -/
+def encRctTypeT (v : RctTy) : Bytes := [UInt8.ofNat ((Gen.rctTypeEncode.lookup v).getD 0)]
+/-- the two separately written tables of the source are mutually inverse on bytes: a byte accepted as variant `v` is the byte written for `v` -/
+theorem rctType_tables_inverse : ∀ n < 256, ∀ v ∈ Gen.rctTypeDecode.lookup n, (Gen.rctTypeEncode.lookup v).getD 0 = n := by
+  decide +kernel
+/-- **`RctType` is a canonical codec, from the two tables of the source** (not from the model's identification of a type with its
+number): a one-sided edit of `RctType::consensus_decode` or `::consensus_encode` breaks this theorem -/
+theorem C01_sound_rcttype_tables : Sound encRctTypeT rctTypeT := by
+  intro b x r h
+  unfold rctTypeT at h
+  obtain ⟨t, r1, h1, h2⟩ := bind_some h
+  have hb := sound_u8 _ _ _ h1
+  cases hl : Gen.rctTypeDecode.lookup t.toNat with
+  | none => simp only [hl] at h2; exact (fail_some h2).elim
+  | some v =>
+    simp only [hl] at h2
+    obtain ⟨rfl, rfl⟩ := pure_some h2
+    have := rctType_tables_inverse t.toNat (by have := t.toNat_lt; omega) v hl
+    simp only [encRctTypeT, this, UInt8.ofNat_toNat]
+    simpa using hb
+example : rctTypeT [6, 9] = some (.BulletproofPlus, [9]) := by decide
+/-- the number-valued model codec used by the driver and by `base` is this table codec followed by the numbering of the ENCODE table -/
+theorem C01_rcttype_model_is_table (b : Bytes) :
+    rctType b = (rctTypeT b).map (fun y => ((Gen.rctTypeEncode.lookup y.1).getD 0, y.2)) ∧
+    (∀ v, encRctTypeT v = encRctType ((Gen.rctTypeEncode.lookup v).getD 0)) := by
+  refine ⟨?_, fun v => rfl⟩
+  have key : ∀ n < 256, (if n > 6 then (none : Option Nat) else some n) = (Gen.rctTypeDecode.lookup n).map (fun v => (Gen.rctTypeEncode.lookup v).getD 0) := by
+    decide +kernel
+  cases b with
+  | nil => rfl
+  | cons t r =>
+    have := key t.toNat (by have := t.toNat_lt; omega)
+    simp only [rctType, rctTypeT, Monero.bind, u8]
+    split
+    · rename_i hgt; simp only [hgt, if_true] at this
+      cases hl : Gen.rctTypeDecode.lookup t.toNat with
+      | none => rfl
+      | some v => rw [hl] at this; simp at this
+    · rename_i hgt; simp only [hgt, if_false] at this
+      cases hl : Gen.rctTypeDecode.lookup t.toNat with
+      | none => rw [hl] at this; simp at this
+      | some v => rw [hl] at this; simp only [Option.map_some, Option.some.injEq] at this; simp [pure', this]
 
 /- non-vacuity: a concrete coinbase-style transaction is accepted (test, by kernel evaluation) -/
 example : (tx [2, 0, 1, 0xff, 5, 0, 0, 0]).isSome = true := by decide
